@@ -460,3 +460,77 @@ def const_of_op(op):
     if isinstance(op, dict) and isinstance(op.get("k"), int) and not isinstance(op.get("k"), bool):
         return op["k"]
     return None
+
+
+def _addlike(t, fld):
+    """sub-terms that add something to the field `fld`: (other operand, whole)."""
+    out = []
+    for x in walk(t):
+        a = b = None
+        if x[0] == "bin" and x[1] in ("Add", "AddWithOverflow"):
+            a, b = x[2], x[3]
+        elif x[0] == "call" and re.search(r"::(checked_add|wrapping_add|saturating_add)$", x[1]) and len(x[2]) == 2:
+            a, b = x[2]
+        if a is None:
+            continue
+        for p, q in ((a, b), (b, a)):
+            ps = simp_deep(p)
+            if ps[0] == "field" and ps[1].endswith(fld):
+                out.append((q, x))
+    return out
+
+
+def rule_ds_running(R, ctx, rid="C09.packed"):
+    """running value of the v2 delete-set column."""
+    Y = ctx.yrs
+    E = "<yrs::updates::encoder::EncoderV2 as yrs::updates::encoder::Encoder>::"
+    D = "<yrs::updates::decoder::DecoderV2 as yrs::updates::decoder::Decoder>::"
+    wc, wl, rc, rl = (Y.fn(E + "write_ds_clock"), Y.fn(E + "write_ds_len"), Y.fn(D + "read_ds_clock"), Y.fn(D + "read_ds_len"))
+
+    def written(fn):
+        v = FnView(fn)
+        return [simp_deep(v.arg(cs, 1, 20)) for cs in fn.calls() if re.search(r"::write_var$", F.strip_generics(cs.name)) and len(cs.args) > 1]
+
+    def is_param(t, name, fn):
+        t = simp_deep(t)
+        return t[0] == "param" and fn.local_name(t[1]) == name
+
+    # writer clock: emits clock - cur, then cur := clock
+    w = written(wc)
+    subs = [b for t in w for b in _bins(t, "Sub", "SubWithOverflow") if is_param(b[2], "clock", wc) and term_has_field(b[3], "EncoderV2.ds_curr_val")]
+    cur = [t for _, t in _field_writes_terms(wc, "EncoderV2.ds_curr_val")]
+    R.ob(rid, wc, "ds:clock-delta", bool(subs) and len(cur) == 1 and is_param(cur[0], "clock", wc),
+         "writes clock - ds_curr_val and stores ds_curr_val := clock (written %s; stored %s)" % ([sshow(t, 6) for t in w], [sshow(t, 6) for t in cur]))
+    # reader clock: cur := cur + read, returns cur
+    cur = [t for _, t in _field_writes_terms(rc, "DecoderV2.ds_curr_val")]
+    ok = len(cur) == 1 and any(_calls(q, r"::read_var$") for q, _ in _addlike(cur[0], "DecoderV2.ds_curr_val"))
+    rv = FnView(rc).terms.local(0, 20)
+    oks = [x for x in walk(rv) if x[0] == "agg" and x[1].endswith("Result::Ok")]
+    ret_cur = bool(oks) and all(simp_deep(x[2][0])[0] == "field" and simp_deep(x[2][0])[1].endswith("DecoderV2.ds_curr_val") for x in oks)
+    R.ob(rid, rc, "ds:clock-sum", ok and ret_cur, "ds_curr_val := ds_curr_val + read (%s) and the sum is returned (%s)" % (ok, ret_cur))
+    # writer len: emits len - 1, cur += len
+    w = written(wl)
+    m1 = [b for t in w for b in _bins(t, "Sub", "SubWithOverflow") if is_param(b[2], "len", wl) and _const(b[3]) == 1]
+    cur = [t for _, t in _field_writes_terms(wl, "EncoderV2.ds_curr_val")]
+    adv = len(cur) == 1 and any(is_param(q, "len", wl) for q, _ in _addlike(cur[0], "EncoderV2.ds_curr_val"))
+    R.ob(rid, wl, "ds:len-bias", bool(m1) and adv, "writes len - 1 (%s) and advances ds_curr_val by len (%s)" % (bool(m1), adv))
+    # reader len: value = read + 1, cur += value, returns value
+    cur = [t for _, t in _field_writes_terms(rl, "DecoderV2.ds_curr_val")]
+    plus1 = []
+    if len(cur) == 1:
+        for q, _ in _addlike(cur[0], "DecoderV2.ds_curr_val"):
+            for x in walk(q):
+                if x[0] == "call" and re.search(r"::(checked_add|wrapping_add|saturating_add)$", x[1]) and _const(x[2][1]) == 1 and _calls(x[2][0], r"::read_var$"):
+                    plus1.append(x)
+                if x[0] == "bin" and x[1] in ("Add", "AddWithOverflow") and _const(x[3]) == 1 and _calls(x[2], r"::read_var$"):
+                    plus1.append(x)
+    rv = FnView(rl).terms.local(0, 20)
+    oks = [x for x in walk(rv) if x[0] == "agg" and x[1].endswith("Result::Ok")]
+
+    def is_plus1(t):
+        return any((x[0] == "call" and re.search(r"::(checked_add|wrapping_add|saturating_add)$", x[1]) and _const(x[2][1]) == 1) or
+                   (x[0] == "bin" and x[1] in ("Add", "AddWithOverflow") and _const(x[3]) == 1) for x in walk(t)) and \
+            not term_has_field(t, "DecoderV2.ds_curr_val")
+    ret_ok = bool(oks) and all(is_plus1(x[2][0]) for x in oks)
+    R.ob(rid, rl, "ds:len-unbias", bool(plus1) and ret_ok,
+         "len = read + 1 (%s), ds_curr_val advances by it (%s), and it is what is returned (%s)" % (bool(plus1), bool(plus1), ret_ok))
